@@ -151,6 +151,7 @@ type Node struct {
 	DeferHandBack bool
 	Up            bool
 	sysctx        system.VerifCtx
+	dpctx         dpos.VerifCtx
 	Consensus     string // "dpos" or "permissive"
 	// MemPoolGetHook lets a world reorder/perturb what the pool hands to the producer.
 	MemPoolGetHook func([]types.Transaction) []types.Transaction
@@ -199,10 +200,11 @@ func (n *Node) enter() {
 	p2pkey.VerifSetKey(n.Key)
 	chain.VerifSetCoinbase(n.Coinbase)
 	system.VerifRestoreCtx(n.sysctx)
+	dpos.VerifRestoreCtx(n.dpctx)
 	simclock.Skew = n.Skew
 }
 
-func (n *Node) leave() { n.sysctx = system.VerifSaveCtx() }
+func (n *Node) leave() { n.sysctx = system.VerifSaveCtx(); n.dpctx = dpos.VerifSaveCtx() }
 
 // Do runs f with this node's process context installed.
 func (n *Node) Do(f func()) {
@@ -259,6 +261,7 @@ func (n *Node) Boot() {
 	)
 	n.CS.SetHub(n.Hub)
 	n.MP.SetHub(n.Hub)
+	dpos.VerifFreshCtx()
 	c, err := dpos.New(cfg, n.Hub, n.CS.CDB(), n.CS.SDB())
 	if err != nil {
 		panic(err)
